@@ -138,8 +138,25 @@ func canon(b []byte, p peer.ID) []byte {
 	return b
 }
 
-// recordAttempt snapshots the owning request's counters for every address.
+// doneSnapshot returns which requests have been completed so far.
+func (w *world) doneSnapshot() []bool {
+	w.mu.Lock()
+	defer w.mu.Unlock()
+	out := make([]bool, len(w.reqs))
+	for i, r := range w.reqs {
+		out[i] = r.handlerDone
+	}
+	return out
+}
+
 func (w *world) recordAttempt(kind string, p peer.ID, addrs []ma.Multiaddr) attempt {
+	return w.recordAttemptSnap(kind, p, addrs, nil)
+}
+
+// recordAttemptSnap snapshots the owning request's counters for every address. done
+// (optional) is a completion snapshot taken BEFORE the address list was read: another
+// request of the same peer may complete between reading the peerstore and recording.
+func (w *world) recordAttemptSnap(kind string, p peer.ID, addrs []ma.Multiaddr, done []bool) attempt {
 	w.mu.Lock()
 	defer w.mu.Unlock()
 	w.seq++
@@ -156,6 +173,9 @@ func (w *world) recordAttempt(kind string, p peer.ID, addrs []ma.Multiaddr) atte
 			aa.Consumed = r.srvEnd.BytesRead.Load()
 			aa.Written = len(r.wlog)
 			aa.OwnerDone = r.handlerDone
+			if done != nil {
+				aa.OwnerDone = done[ref[0]]
+			}
 		}
 		a.Addrs = append(a.Addrs, aa)
 	}
@@ -467,9 +487,10 @@ var errScripted = errors.New("c16: scripted dial failure")
 // Connect is the dial: it dials whatever the peerstore holds for the peer (plus
 // pi.Addrs), like the basic host does.
 func (h *dialHost) Connect(ctx context.Context, pi peer.AddrInfo) error {
+	done := h.w.doneSnapshot()
 	addrs := append([]ma.Multiaddr(nil), pi.Addrs...)
 	addrs = append(addrs, h.raw.Addrs(pi.ID)...)
-	att := h.w.recordAttempt("connect", pi.ID, addrs)
+	att := h.w.recordAttemptSnap("connect", pi.ID, addrs, done)
 	sc, dialed, ok := att.script()
 	if !ok {
 		return errScripted
